@@ -17,8 +17,8 @@ def two_distinct(s):
     return len(set(s)) >= 2
 
 
-def rows_of(samples, ratios, lawname):
-    det, rec = hcm.run_detector(samples, ratios, hcm.StubLaw(lawname))
+def rows_of(samples, ratios, lawname, labels="0..n-1"):
+    det, rec = hcm.run_detector(samples, ratios, hcm.StubLaw(lawname), labels)
     return det, rec, hcm.collective_rows(rec, len(ratios))
 
 
@@ -31,13 +31,14 @@ class C05(Prop):
         # about the model of the code as it is (`twoPass`)
         "PylifeVerif.C05.hcm_model_eq_guideline_code",
         "PylifeVerif.C05.hcm_batch_eq_single_code",
+        "PylifeVerif.C05.hcm_batch_eq_single_LF_code",
         "PylifeVerif.C05.hcm_neg_mirror_code",
         # the same for the repaired variant `twoPassR`
         "PylifeVerif.C05.hcm_model_eq_guideline",
         "PylifeVerif.C05.hcm_batch_eq_single",
         "PylifeVerif.C05.hcm_neg_mirror",
     ]
-    PARTIAL = {"PylifeVerif.C05.hcm_batch_eq_single_code": "proved for all columns except the running strain extremes epsilon_min_LF / epsilon_max_LF (their update is decided on the first point's strains; checked by the oracle only, class batch-LF-first-point) and under SignPreserving (monotone law)"}
+    PARTIAL = {"PylifeVerif.C05.hcm_batch_eq_single_code": "batch = single is proved under SignPreserving (a law whose secondary branch follows the sign of the load range - true for every monotone law; both stub laws satisfy it); for a non-monotone law the per-column min/max selection by the first point's values can differ between points"}
     RULE = ("case = (load sequence of the first point, positive integer load ratios of 1-4 points, exact stub notch law); every column of "
             "the recorder's collective (min/max load, stress, strain, running strain extremes, closed/half flag, zero-mean flag, pass number) and the "
             "visited strain values are compared bit-exactly with the model; the Lean guideline procedure is compared with the oracle's reference "
@@ -72,7 +73,8 @@ class C05(Prop):
             s = [rng.choice(lv) for _ in range(n)]
             if not two_distinct(s):
                 continue
-            yield {"kind": "seq", "law": rng.choice(["linear", "sat"]), "samples": s, "ratios": rng.choice(RATIOS)}
+            yield {"kind": "seq", "law": rng.choice(["linear", "sat"]), "samples": s, "ratios": rng.choice(RATIOS),
+                   "labels": rng.choice(list(hcm.LABELS))}
 
     def model_lines(self, case):
         t1, t2 = hcm.ref_feed(case["samples"])
@@ -80,8 +82,10 @@ class C05(Prop):
                 f"hcmg {case['law']} {len(t1)} {' '.join(map(str, t1 + t2))}"]
 
     def impl_lines(self, case):
-        det, rec, rows = rows_of(case["samples"], case["ratios"], case["law"])
+        det, rec, rows = rows_of(case["samples"], case["ratios"], case["law"], case.get("labels", "0..n-1"))
         st = self.stats
+        st.setdefault("labels", {})
+        st["labels"][case.get("labels", "0..n-1")] = st["labels"].get(case.get("labels", "0..n-1"), 0) + 1
         st["nodes"][str(len(case["ratios"]))] = st["nodes"].get(str(len(case["ratios"])), 0) + 1
         st["law"][case["law"]] = st["law"].get(case["law"], 0) + 1
         st["hystereses"] += len(rows)
@@ -113,7 +117,7 @@ class C05(Prop):
     # ------------------------------------------------------------ oracle
     def oracle(self, case):
         s, ratios, lawname = case["samples"], case["ratios"], case["law"]
-        det, rec, rows = rows_of(s, ratios, lawname)
+        det, rec, rows = rows_of(s, ratios, lawname, case.get("labels", "0..n-1"))
         n = len(ratios)
         # (i) first point vs the reference guideline procedure fed with the reference reversal sequences
         c0 = ratios[0]
